@@ -375,7 +375,7 @@ func cmdCheck(args []string) int {
 						o.Output = fmt.Sprintf("conjunct %d/%d: %s %s", k+1, len(p.scripts), r.Status, r.Output)
 						break
 					}
-					if phase == 2 {
+					if phase == 2 || p.job.expectSat {
 						o.Status = "unknown"
 						o.Output = fmt.Sprintf("conjunct %d/%d: %s %s", k+1, len(p.scripts), r.Status, r.Output)
 						break
